@@ -58,7 +58,7 @@ func c12Events(full bool) []string {
 	evs = append(evs, "upd c a")
 	// a registered peer listed under another spelling of its id is, for the store, an unknown id
 	evs = append(evs, "upd a B 4", "upd b A,a 5")
-	evs = append(evs, "nonce a n", "nonce a n+1", "tick 30s", "tick 121s")
+	evs = append(evs, "nonce a n", "nonce a n+1", "nonce a n.5", "tick 30s", "tick 121s", "tick 15m1.2s")
 	if full {
 		evs = append(evs, "nonce b stale", "tick 60s")
 	}
